@@ -240,8 +240,20 @@ func c10(c *engine.Ctx) {
 		if t != "mt.ServerDHParamsOk" || f != "EncryptedAnswer" || keys == nil {
 			return false
 		}
-		d := engine.Describe(keys)
-		return strings.Contains(d, "crypto.RandInt256(") && strings.Contains(d, "res.ServerNonce")
+		// (new_nonce: the client's RandInt256 draw; server_nonce: the field of the
+		// received ResPQ — identified by message type and field, not by the local's name)
+		ka := keys.Common().Args
+		if len(ka) != 2 {
+			return false
+		}
+		fromResPQ := false
+		engine.WalkBack(ka[1], func(v ssa.Value) bool {
+			if c09FieldOf(v, "ResPQ.ServerNonce") {
+				fromResPQ = true
+			}
+			return !fromResPQ
+		})
+		return strings.Contains(engine.Describe(ka[0]), "crypto.RandInt256(") && fromResPQ
 	})
 	c.Check(okDec, "C10.R4", "decrypt-answer-ok", r.Pos(), "success must be guarded by DecryptExchangeAnswer(ServerDHParamsOk.EncryptedAnswer, TempAESKeys(newNonce, serverNonce)) err == nil")
 	okInner := has(func(k engine.Cmp) bool {
